@@ -43,7 +43,7 @@ try:
     ok2, o2 = demo()
     res["demo_fails_with_patch"] = not ok2
     os.remove(demo_dst)
-    st = subprocess.run(["/tmp/wt/run_stable.py"], env=dict(env, REPO_DIR=wt), stdout=subprocess.PIPE, text=True)
+    st = subprocess.run([VERIF_HOME + "/tools/run_stable.py"], env=dict(env, REPO_DIR=wt), stdout=subprocess.PIPE, text=True)
     res["stable_suite"] = st.stdout.strip().splitlines()[0] if st.stdout.strip() else "?"
     checks = {}
     for cid in [prop] + [e for e in extra if e != prop]:
